@@ -22,6 +22,9 @@ def pivot():
         U("Off", disabled=True, fields=[Field("u8")]), U("Triple", fields=[Field("u8"), Field("u16"), Field("u32")]),
         U("IoError2"), U("Empty", parens=True),
     ], note="all kinds, 0..3 tuple fields of distinct types, digits/acronyms in identifiers, disabled tuple variant, empty tuple variant"))
+    S.append(EnumSpec("DisAttr", [U("A", fields=[Field("u8")]), U("H1", disabled=True, message="m", flags_last=True, fields=[Field("u8")]),
+                                  U("B"), U("H2", disabled=True, attr_style="trailing"), U("C", fields=[Field("u16"), Field("u8")])],
+                      note="`disabled` after a key = value item in the same attribute / with a trailing comma"))
     S.append(EnumSpec("G", [U("A", fields=[Field("T")]), U("B", fields=[Field("T"), Field("u8")]), U("C"), U("D", fields=[Field("T", name="t")], named=True)],
                       generics=GEN, ty_args="<u16>", subst={"T": "u16"}, note="generic payloads"))
     S.append(EnumSpec("Lt", [U("S", fields=[Field("&'a str")]), U("N", fields=[Field("u8")]), U("U")], generics="<'a>", ty_args="<'static>",
